@@ -344,9 +344,19 @@ class DVec(Vec):
         return self.at(idx[0])
 
     def m_setZero(self, M, a, t):
-        for i in range(len(self.items)):
-            self.items[i] = Fraction(0)
+        if a:
+            self.items[:] = [Fraction(0)] * int(simp(a[0]))
+        else:
+            for i in range(len(self.items)):
+                self.items[i] = Fraction(0)
         return self
+
+    def m_resize(self, M, a, t):
+        n = int(simp(a[0]))
+        self.items[:] = (self.items + [mach.UNSET] * n)[:n]
+
+    def m_size(self, M, a, t):
+        return Fraction(len(self.items))
 
     def m_rows(self, M, a, t):
         return Fraction(len(self.items))
@@ -493,3 +503,51 @@ class OptVal:
             self.v = mach.UNSET
         else:
             self.v = v
+
+
+class DenseCols:
+    """a dense matrix seen through its column / row reductions only"""
+
+    def __init__(self, name, rows, cols):
+        self.name, self.rows, self.cols = name, rows, cols
+
+    def show(self):
+        return "%s(%dx%d dense)" % (self.name, self.rows, self.cols)
+
+    def m_rows(self, M, a, t):
+        return Fraction(self.rows)
+
+    def m_cols(self, M, a, t):
+        return Fraction(self.cols)
+
+    def m_colwise(self, M, a, t):
+        return Reduction(self, "col", self.cols)
+
+    def m_rowwise(self, M, a, t):
+        return Reduction(self, "row", self.rows)
+
+    def m_eval(self, M, a, t):
+        return self
+
+
+class Reduction:
+    def __init__(self, m, axis, n):
+        self.m, self.axis, self.n = m, axis, n
+
+    def show(self):
+        return "%s.%swise()" % (self.m.name, self.axis)
+
+    def red(self, what):
+        return DVec([sym("%s(%s %d of %s)" % (what, self.axis, i, self.m.name)) for i in range(self.n)], "%s.%swise().%s()" % (self.m.name, self.axis, what))
+
+    def m_norm(self, M, a, t):
+        return self.red("norm")
+
+    def m_stableNorm(self, M, a, t):
+        return self.red("norm")
+
+    def m_squaredNorm(self, M, a, t):
+        return self.red("squaredNorm")
+
+    def m_sum(self, M, a, t):
+        return self.red("sum")
